@@ -103,6 +103,35 @@ CLAIMED = {
              "Miller-Rabin accepts composites constructed for its bases; bn_mod_barrt reports a precision error for one "
              "capacity edge (m = beta^(DIGS-1), operand of 2*DIGS digits).",
         tech=PBT + "Python-int / sympy number-theory references and definition-level recoding validators; coverage-guided fuzzing (libFuzzer) with in-target algebraic oracles"),
+    "C10": dict(
+        text="Generated-input search over every fpN_* routine of the towers Fp2..Fp54 (414 bound functions: add / sub / "
+             "mul / sqr in every lazy-reduction and unreduced variant, every sparsity shape of the mul_dxs forms under each "
+             "twist type, inversion incl. cyclotomic / unitary / simultaneous, Frobenius powers 0..N+1, exponentiation "
+             "plain / digit / cyclotomic / simultaneous, compressed squarings and decompression, square roots and the "
+             "square test, cyclotomic conversion and membership) on every pairing prime selectable in the build, with "
+             "coefficient vectors of generated sparsity, subfield embeddings, reference-built cyclotomic / order-r "
+             "elements and near-members, alias patterns and two storage poisons; oracle = a generic quotient-ring model "
+             "K[X]/(X^d - nr) in Python built from non-residues read from the library and proven irreducible by the "
+             "reference, canonical coefficients (< p), input preservation. Thorough: towers of degree 16..54 over the "
+             "other pairing field sizes (27 configurations) and non-pairing primes.",
+        note="Specialised routines are fed operands satisfying their precondition (shapes taken from the callers). Known "
+             "findings: fp54_frb indexes a constant table out of bounds, fp18_mul_dxs_basic / EP_ADD=BASIC variants "
+             "mis-handle D-type shapes, Frobenius constants for p = 2 mod 3, fp3_field_get_cnr vs. fp3_mul_nor.",
+        tech=PBT + "a generic polynomial quotient-ring reference (schoolbook, parameters validated by irreducibility tests); differential + canonical-form + alias / poison metamorphic oracles"),
+    "C11": dict(
+        text="Generated-input search over the twist curves E'(Fp2) of every k = 12 pairing set selectable in the build: "
+             "group law in affine / homogeneous / Jacobian coordinates with exceptional pairs, aliasing and both "
+             "encodings of the identity; every ep2 / g2 scalar multiplication (basic, sliding, Montgomery, w-NAF, regular "
+             "GLS, fixed-base with each table, digit, simultaneous 2 / trick / inter / joint / lot / dig forms with 0..12 "
+             "entries) for scalars 0, +-1, r-1, r, r+1, multiples of r, negative, up to 1024 bits and built from chosen "
+             "GLS sub-scalars; Frobenius = [p^i mod r] on the subgroup and = untwist-Frobenius-twist in Fp12 for "
+             "arbitrary points; cofactor clearing on reference-lifted points of full order h2*r (on curve, [r]R = O, "
+             "homomorphism, equality with [h_eff]P). Oracle = independent affine chord-and-tangent law over a Python Fp2. "
+             "Thorough: ep-jacob / ep-basic builds, BLS12-381 and the curves over cubic / quartic / octic extensions "
+             "(ep3 / ep4 / ep8) on ten further pairing field sizes.",
+        note="Twist parameters are read from the library and validated by the reference (G2 on E', [r]G2 = O, psi(G2) = "
+             "[p]G2). One known finding: ep4_add_projc returns O when P - Q has order two on quartic twists (point (0,0)).",
+        tech=PBT + "an independent affine curve reference over a Python Fp2 / Fp12 tower; psi and h_eff derived from (p, r) by the published family formulas"),
     "C12": dict(
         text="Generated-input search over g1_is_valid / g2_is_valid / gt_is_valid in both directions (members: reference "
              "multiples of generators, pairing outputs; non-members: reference-lifted curve / twist points, small-order "
